@@ -20,9 +20,12 @@ def streams(ctx):
     n = 4 if ctx.quick else 40
     xs = [65537 ** 3 + rng.randint(0, 10 ** 9), 6 * 10 ** 14 + rng.randint(-5, 5)]
     xs += gen.structured_x(rng, 29 * 10 ** 13, 3 * 10 ** 15, n)
-    for x in xs:
+    # two fixed cases with y = 1.1 * x^(1/3): x_star = x / y^2 ~ 0.83 * x^(1/3) >= 2^16 lies well below y, so the two-prime loops of
+    # D / A / C2 run over MANY primes p >= 2^16 with second primes in (p, y] (seeded change C15-b: `prime * prime` in uint32_t)
+    xs = [9 * 10 ** 14 + rng.randint(0, 10 ** 9), 7 * 10 ** 14 + rng.randint(0, 10 ** 9)] + xs
+    for i, x in enumerate(xs):
         x13, sq = gen.iroot(3, x), gen.isqrt(x)
-        y = rng.choice([x13 + 1, x13 + 2, x13 + x13 // 50])
+        y = x13 + x13 // 10 if i < 2 else rng.choice([x13 + 1, x13 + 2, x13 + x13 // 50, x13 + x13 // 10])
         if x // (y * y) < 65536:
             y = x13 + 1
         z = min(rng.choice([y, y, 2 * y, 40 * y]), sq - 1)
